@@ -88,8 +88,8 @@ class World:
         if r < 0.55:
             return self.tag(u.ListBox(u.SimpleFocusListWalker([self.flow(depth - 1) for _ in range(self.rng.randint(0, 3))])))
         if r < 0.8:
-            hdr = self.flow(0) if self.rng.random() < 0.6 else None
-            ftr = self.flow(0) if self.rng.random() < 0.6 else None
+            hdr = self.flow(1 if self.rng.random() < 0.35 else 0) if self.rng.random() < 0.6 else None     # sometimes several rows
+            ftr = self.flow(1 if self.rng.random() < 0.35 else 0) if self.rng.random() < 0.6 else None
             return self.tag(u.Frame(self.box(depth - 1), header=hdr, footer=ftr, focus_part="body"))
         return self.tag(u.Overlay(u.Filler(self.flow(depth - 1), valign="top"), self.box(0), "center", 8, "middle", 3))
 
@@ -194,6 +194,8 @@ def run_history(seed, nops, depth=2):
     wd = World(rng)
     u = wd.u
     root = wd.box(depth)
+    # most histories at the usual size, some on a screen too short for everything (trimmed header / footer / items)
+    W, H = 14, rng.choice([7, 7, 7, 7, 4, 3, 2])
     ev = []
 
     def render():
@@ -206,12 +208,18 @@ def run_history(seed, nops, depth=2):
 
     def event(t, pre, exc, expect, **kw):
         e = {"t": t, "pre": pre, "exc": exc, "expect": expect, "recv": [], "handled": 0, "ret_same": 1, "key": "", "samestruct": 0, "target": 0,
-             "same": 1, "rfocus": [], "post": []}
+             "same": 1, "rfocus": [], "post": [], "short": 1 if H < 7 else 0}
         e.update(kw)
         e["soft"] = ""
         if t in ("key", "press", "init", "edit", "setcontents") and exc:
             # the property says nothing about these calls raising (rendering is C01): recorded as DIVERGENCE
             e["soft"], e["exc"] = exc, ""
+        selnow = {}
+        try:      # selectable() as the operation left it, before any rendering refreshes layout caches
+            for c in wd.containers(root):
+                selnow[c._vf_id] = 1 if c.selectable() else 0
+        except Exception:  # noqa: BLE001
+            selnow = {}
         if not e["exc"] or expect:
             try:
                 e["rfocus"] = render()
@@ -220,6 +228,9 @@ def run_history(seed, nops, depth=2):
                 e["rfocus"] = []
         try:
             e["post"] = wd.table(root)
+            for nd in e["post"]:
+                if nd["id"] in selnow:
+                    nd["sel"] = selnow[nd["id"]]
         except Exception as ex:  # noqa: BLE001
             e["post"] = pre
             if not e["exc"]:
@@ -232,7 +243,7 @@ def run_history(seed, nops, depth=2):
         event("init", pre, "", "")
     except Exception as ex:  # noqa: BLE001
         return {"seed": seed, "ev": [{"t": "init", "pre": [], "post": [], "exc": "build:" + type(ex).__name__, "expect": "", "recv": [], "handled": 0,
-                                      "ret_same": 1, "key": "", "samestruct": 0, "target": 0, "same": 1, "rfocus": [], "soft": ""}]}
+                                      "ret_same": 1, "key": "", "samestruct": 0, "target": 0, "same": 1, "rfocus": [], "soft": "", "short": 0}]}
     for _ in range(nops):
         pre = ev[-1]["post"]
         r = rng.random()
